@@ -395,7 +395,7 @@ type expectation struct {
 }
 
 func runC01(e *env) {
-	e.res.Rule = "expression trees (every binary operator x 21 operand representatives squared, unary/elvis/ternary likewise; every built-in function x argument kinds and wrong arities; every operator nested in every operand position of every operator, minimal and redundant parentheses; random deep typed trees with 3% ill-typed sub-expressions) placed in 28 syntactic positions (implicit print, print, {{..}}, parenthesis, if, elseif, let, param, value= attribute, case, switch, foreach, directive arguments, data= attribute, map value, list item, [ ], ?[ ], function argument, ternary branches) over random data (null, booleans, small and 53-bit ints, dyadic floats, ASCII/Unicode/HTML-special strings, nested lists and maps, injected data, globals). Expected output: extracted Spec on the tree + html escaping. Non-trivial = every case; distinct by source text + data."
+	e.res.Rule = "expression trees (every binary operator x 23 operand representatives squared, unary/elvis/ternary likewise; the pairwise table: the 13 binary operators and ?: on every ordered pair of the 8 operand kinds, neg/not/ternary condition on every kind, operands as atoms and as composites; every built-in function x argument kinds and wrong arities; every operator nested in every operand position of every operator, minimal and redundant parentheses; random deep typed trees with 3% ill-typed sub-expressions) placed in 28 syntactic positions (implicit print, print, {{..}}, parenthesis, if, elseif, let, param, value= attribute, case, switch, foreach, directive arguments, data= attribute, map value, list item, [ ], ?[ ], function argument, ternary branches) over random data (null, booleans, small and 53-bit ints, floats from 2^-40 to 2^62 incl. the exponent-form thresholds and values like 0.1, ASCII/Unicode/HTML-special strings, nested lists and maps, injected data, globals). Expected output: extracted Spec on the tree + html escaping. Plus: the model's float printer against strconv on ~3900 float64 values, the model's IEEE + - * / against Go's float64 arithmetic on 1200 operand pairs. Non-trivial = every case; distinct by source text + data."
 	ctxs := xContexts()
 	byName := map[string]*xctx{}
 	for i := range ctxs {
